@@ -266,6 +266,8 @@ use super::*;
     gc.props_all = ["C04", "C01", "C02"] if fun else ["C12"]
     gc.closure("|c|", params="|c: &raw::Class|", ret="o: Ordering",
                spec="ensures o == class_cmp(self.string_bytes@, *c, name@)" if fun else "")
+    gc.replace_all_re(r"(\w+)\.trim_end_matches\(('(?:[^'\\]|\\.)')\)", r"shim_trim_end_matches_char(\1, \2)", "R2",
+                      why="str::trim_end_matches(char) behind a shim (documented contract over the char view)", min_count=0)
     gc.body_start(STR_ORD)
     if fun:
         gc.contract("""    requires classes_sorted(self.string_bytes@, self.classes@),
